@@ -8,7 +8,6 @@ import (
 	"fmt"
 	"io"
 	"mime"
-	"os"
 	"path/filepath"
 	"strings"
 	"testing"
@@ -142,11 +141,7 @@ func c02Run(c c02Case) (*MIME, error) {
 	case "dir":
 		return DetectFile(vfScratchDir())
 	case "file":
-		p := filepath.Join(vfScratchDir(), "c02.bin")
-		if err := os.WriteFile(p, doc, 0o644); err != nil {
-			panic(err)
-		}
-		return DetectFile(p)
+		return DetectFile(vfWriteFile("c02", doc, vfHash(doc)))
 	}
 	return Detect(doc), nil
 }
